@@ -355,7 +355,7 @@ func (w *wmWorld) afterStep(prevMark, mark uint64) {
 		case "wait_ok":
 			res.Checks++
 		case "illegal_begin":
-			res.Probes["illegal_begin"]++
+			res.Probes["mark_beyond_last_index"]++
 		}
 	}
 	// 3. The mark must be below every held index.
@@ -549,12 +549,16 @@ func (w *wmWorld) startFlight(id int, idxs []uint64) {
 	mark := w.wm.DoneUntil()
 	f := &wmFlight{}
 	for _, x := range idxs {
+		u := &wmUnit{idx: x, task: id}
 		if mark >= x {
-			// the discipline above makes this impossible; counted, never a violation
+			// Only reachable for a new index (re-begins are skipped when their guard
+			// is overrun): x is larger than every index ever begun, so the mark ran
+			// ahead of lastIndex. Reported when the Begin has returned.
+			u.cause = "mark_beyond_last_index"
 			w.b.seq++
 			w.b.events = append(w.b.events, event{task: id, seq: w.b.seq, kind: "illegal_begin", a: int64(x)})
 		}
-		f.units = append(f.units, &wmUnit{idx: x, task: id})
+		f.units = append(f.units, u)
 	}
 	w.flights[id] = f
 }
